@@ -188,11 +188,12 @@ def build_router(world, prog):
 
 
 def router_view(router, hid_of):
-    dicts = [[(k, hid_of[id(v.method)]) for k, v in getattr(router, a).items()] for a in DICT_ATTRS]
+    # a handler this program never registered (one leaking in from another route table) is shown as 999999
+    dicts = [[(k, hid_of.get(id(v.method), 999999)) for k, v in getattr(router, a).items()] for a in DICT_ATTRS]
     unk = []
     for a in UNK_ATTRS:
         ri = getattr(router._unknown, a)
-        unk.append(None if ri is None else hid_of[id(ri.method)])
+        unk.append(None if ri is None else hid_of.get(id(ri.method), 999999))
     return dicts, unk
 
 
